@@ -13,10 +13,10 @@
                    `StdfsEntry::from` back to its target key (`linkTextOkB`; fails e.g. for a target
                    whose name contains `$`); (c) the process cwd is an existing directory;
                    (d) no path argument of `op`, resolved lexically, has a link as a proper ancestor
-                   (`argOk`); (e) the operation-specific exclusions `opOk`, one per finding S6–S8, S12–S14, S16 (for the listings and `chown` also `keysRT`:
+                   (`argOk`); (e) the operation-specific exclusions `opOk`, one per finding S6–S8, S11–S14, S16 (for the listings, `chown` and `chmod` also `keysRT`:
                    every key, rendered, is resolved by `abs` to itself — `DirEntry::path()` is re-resolved)
                    (S1–S5 and S15 were repaired in the Rust code and their exclusions are gone);
-  * `CoveredS op`— the 41 operations for which the refinement is proved;
+  * `CoveredS op`— the 43 operations for which the refinement is proved (`chmodB` only without a symbolic expression);
   * `ResMatchOkErr` — ok-vs-err agreement and, on ok, equal values;
   * `TEquiv`     — same cwd and the same node under every key.
 
@@ -222,18 +222,31 @@ theorem C02_stdfs_refines_reference_partial (env : Env) (t : T) (op : Op) (r : R
     ResMatchOkErr (Stdfs.step env t op).1 r ∧ (r ≠ .unspecified → TEquiv (Stdfs.step env t op).2 t') :=
   refines_step env t op r t' hW hD hC h
 
-/-- every covered operation is covered by the reference, except `mkdir_m` with a mode outside
-    `1 … 0o7777` and `chown_b` with `follow` -/
+/-- the argument conditions under which the reference pins a covered operation down -/
+def specArgsB : Op → Bool
+  | .mkdirM _ m => permOk m && decide (m ≠ 0)
+  | .chmod _ m => permOk m
+  | .chmodB _ c => !c.follow && decide (c.sym = []) && permOk c.dirs && permOk c.files
+  | .chownB _ c => !c.follow
+  | _ => true
+
+/-- every covered operation with such arguments is covered by the reference -/
 theorem C02_covered_specified (env : Env) (t : T) (op : Op) (hC : CoveredS op = true)
-    (hm : ∀ p m, op = .mkdirM p m → permOk m = true ∧ m ≠ 0)
-    (hf : ∀ p c, op = .chownB p c → c.follow = false) : (specStep env t op).isSome = true := by
+    (hA : specArgsB op = true) : (specStep env t op).isSome = true := by
   cases op <;> first | rfl | cases hC | skip
   · rename_i p m
-    simp only [specStep]
-    rw [if_pos (hm p m rfl)]
-    rfl
+    simp only [specArgsB, Bool.and_eq_true, decide_eq_true_eq] at hA
+    simp only [specStep]; rw [if_pos hA]; rfl
+  · rename_i p m
+    simp only [specArgsB] at hA
+    simp only [specStep]; rw [if_pos hA]; rfl
   · rename_i p c
-    simp only [specStep, hf p c rfl]
+    simp only [specArgsB, Bool.and_eq_true, Bool.not_eq_true', decide_eq_true_eq] at hA
+    simp only [specStep, hA.1.1.1, Bool.false_eq_true, if_false, hA.1.1.2, if_true]
+    rw [if_pos ⟨hA.1.2, hA.2⟩]; rfl
+  · rename_i p c
+    simp only [specArgsB, Bool.not_eq_true'] at hA
+    simp only [specStep, hA]
     rfl
 
 /-- C02, composition: if the Memfs step refines the reference from the state `s` (C01, taken as a
@@ -278,17 +291,17 @@ example : Wf okTree ∧ D2 envNone okTree (.appendAll ['f'] [33]) ∧ CoveredS (
     D2 envNone okTree (.isSymlinkDir ['.', '.', '/', 'k']) ∧ D2 envNone okTree (.remove ['/', 'l']) ∧
     D2 envNone okTree (.isDir ['/', 'd']) ∧ D2 envNone okTree (.moveP ['f'] ['/', 'g']) ∧
     D2 envNone okTree (.mkdirP ['x', '/', 'y']) ∧ D2 envNone okTree (.mkdirM ['/', 'z'] 0o700) ∧
-    D2 envNone okTree (.allPaths ['/']) ∧ D2 envNone okTree (.files ['.']) ∧ D2 envNone okTree (.allDirs ['/', 'd']) :=
+    D2 envNone okTree (.allPaths ['/']) ∧ D2 envNone okTree (.files ['.']) ∧ D2 envNone okTree (.allDirs ['/', 'd']) ∧
+    D2 envNone okTree (.chmod ['/'] 0o700) ∧ D2 envNone okTree (.chown ['/', 'd'] 7 8) :=
   ⟨by decide, by decide, rfl, by decide, by decide, by decide, by decide, by decide, by decide,
-   by decide, by decide, by decide⟩
+   by decide, by decide, by decide, by decide, by decide⟩
 
--- OPEN (not proved): the refinement for the operations outside `CoveredS` that the reference covers:
---   * `chmod` / `chmodB` (octal and symbolic; `Stdfs.chmod` = `chmodVisit`, a contents-first/dirs-first
---     walk with `pre_op`) against `TreeFs.chmodOctal` / `chmodSym`;
---   * `chown` / `chownB` (`Stdfs.chown` = `walkPre`) against `TreeFs.chown`;
---   (`mkfileM`, `copy`, `copyB`, `entry`, `entries`, handles: the reference does not cover them.)
--- OPEN (not proved): syntactic sufficient conditions for two computational clauses of `D2`:
---   `linkTextOkB env t` and `keysRT env t` hold when every key of `t` consists of well-formed names
---   without `~`/`$`.
+-- OPEN (not proved): symbolic `chmod_b` (`c.sym ≠ []`; `Stdfs.chmod` runs `Chmod.mode`, the state machine
+--   of `sys::mode`, per entry) against `TreeFs.chmodSym`; known deviations of the state machine are the
+--   subject of C17/C18.  (`mkfileM`, `copy`, `copyB`, `entry`, `entries`, handles: the reference does
+--   not cover them.)
+-- OPEN (not proved): syntactic sufficient conditions for the computational clauses of `D2`:
+--   `linkTextOkB env t`, `keysRT env t` and the idempotence clause of `chownOkB`/`chmodOkB` hold when
+--   every key of `t` (and the resolved argument) consists of well-formed names without `~`/`$`.
 
 end Rivia.Props
